@@ -333,7 +333,8 @@ pub fn check_multi_site(seed: u64, st: &mut Stats) {
         Ok(s) => s,
         Err(_) => return,
     };
-    let one = |ops: &[&str]| WyckoffSite { letter: 'b', symmetries: ops.iter().filter_map(|o| Transform2::from_operations(o).ok()).collect(), num_rotations: 1, mirror_primary: false, mirror_secondary: false };
+    let flags = (rng.gen_range(0u64, 5), rng.gen_bool(0.3), rng.gen_bool(0.3));
+    let one = |ops: &[&str]| WyckoffSite { letter: 'b', symmetries: ops.iter().filter_map(|o| Transform2::from_operations(o).ok()).collect(), num_rotations: flags.0, mirror_primary: flags.1, mirror_secondary: flags.2 };
     let mut sites = match rng.gen_range(0, 4) {
         0 => vec![general.clone(), one(&["x,y"])],
         1 => vec![general.clone(), one(&["x,y"]), one(&["x,y"])],
